@@ -11,5 +11,7 @@ for tc in ET.parse(out).getroot().iter("testcase"):
         ok.add(f"{tc.get('classname')}::{tc.get('name')}")
 os.remove(out)
 missing = [t for t in base["stable_pass"] if t not in ok]
+if len(sys.argv) > 1:
+    open(sys.argv[1], "w").write("\n".join(sorted(ok)) + "\n")
 print(f"stable_pass {len(base['stable_pass'])} passing-now {len(ok)} missing {missing}")
 sys.exit(1 if missing else 0)
